@@ -106,7 +106,7 @@ var byteAlpha = []string{"a", "(", ")", ",", "[", "\"", "/", "\n", " ", "\r", "\
 // parenthesis, before and after the closing one, between lines) are reachable at small depth.
 var lineAlpha = []string{"a (\n", "a ( //c\n", "b\n", "b c //d\n", "//e\n", "\n", ")\n", ") //f\n", "a ()\n", "x (y) z\n", "\"q r\" s\r\n", "  //g  \n"}
 
-var atomAlpha = []string{"a", "b", "(", ")", "[", "]", ",", "\"s t\"", "`r`", "//c", "// d ", "\n", "\r\n", " ", "\t", "a//"}
+var atomAlpha = []string{"a", "b", "(", ")", "[", "]", ",", "\"s t\"", "`r`", "//c", "// d ", "\n", "\r\n", " ", "\t", "a//", "{", "}", "\x01", "\u00a0"}
 
 // ---------------------------------------------------------------- directive layer
 
